@@ -360,8 +360,6 @@ def check_node(c, short_too=False):
         bad.append(('wavedrom', {'raised': _exc(e), 'where': 'get_wavedrom'}))
     if getattr(c, 'insane', None):
         bad = [(what, det) for what, det in bad if what in ('length', 'clock_lane')]
-        if not bad:
-            raise core.HarnessError(c.insane)
         for what, det in bad:
             det['note'] = 'the watched register itself had stopped following its reference: ' + c.insane
     seen, out = set(), []
